@@ -45,6 +45,17 @@ Proportional ==
      \A p \in Paths(case.tree) :
         LET f == ReachProb(case.tree, p) IN
         (f.d # 0) => f.n * Weight(case.tree) = LeafAt(case.tree, p).w * f.d
+(* only the RATIOS of the weights matter: multiplying every weight by the same *)
+(* factor changes no probability (this is what lets the conformance runs use   *)
+(* the same laws with weights scaled up to the 32-bit boundary)                *)
+RECURSIVE Scaled(_, _)
+Scaled(t, k) == IF t.t = "leaf" THEN [t EXCEPT !.w = @ * k] ELSE [t EXCEPT !.a = Scaled(t.a, k), !.b = Scaled(t.b, k)]
+ScaleInvariant ==
+  (phase = "pre" /\ case.op = "select" /\ Weight(case.tree) > 0) =>
+     \A k \in {2, 7} : \A p \in Paths(case.tree) :
+        LET f == ReachProb(case.tree, p) g == ReachProb(Scaled(case.tree, k), p) IN
+        /\ (f.d = 0 <=> g.d = 0)
+        /\ f.n * g.d = g.n * f.d
 OverflowAtBuild ==
   (Post /\ case.op = "build") =>
      /\ (res.k = "ok" <=> SumSeq(case.ws) <= WMax)
